@@ -272,8 +272,16 @@ def _run_job(job):
 def replay(jobs, procs=None):
     procs = procs or min(16, os.cpu_count() or 4, max(1, len(jobs)))
     ctx = mp.get_context("fork")
-    with ctx.Pool(procs, maxtasksperchild=8) as pool:
-        res = pool.map(_run_job, jobs, chunksize=1)
+    # schedules start up to three worker processes with up to 16 threads each: run them a few at a time, after the in-process histories
+    heavy = [j for j in jobs if j.get("scenario") == "schedule"]
+    light = [j for j in jobs if j.get("scenario") != "schedule"]
+    res = []
+    if light:
+        with ctx.Pool(min(procs, len(light)), maxtasksperchild=8) as pool:
+            res += pool.map(_run_job, light, chunksize=1)
+    if heavy:
+        with ctx.Pool(min(4, len(heavy)), maxtasksperchild=8) as pool:
+            res += pool.map(_run_job, heavy, chunksize=1)
     bad = [r for r in res if "machinery_error" in r]
     if bad:
         raise tlc.TLCError("lifecycle driver failure in %d histories, first:\n%s" % (len(bad), bad[0]["machinery_error"]))
